@@ -38,69 +38,131 @@ def field_of(pl, adt):
     return None
 
 
+def _field_events(f, adt):
+    """[(bb, line, field, kind)] with kind in overwrite / expose (a `&mut self.f` handed out: may read and write) / read"""
+    out = []
+    for bi, si, s in mir.stmts(f):
+        if f["blocks"][bi]["cleanup"]:
+            continue
+        fl = [q for q in s["lhs"]["p"] if q[0] == "f" and q[2] == adt]
+        if fl:
+            # assignment to the field itself (not to something inside it) is a definite overwrite
+            idx = s["lhs"]["p"].index(fl[0])
+            whole = idx == len(s["lhs"]["p"]) - 1
+            out.append((bi, s["line"], fl[0][1], "overwrite" if whole else "expose", s))
+        rv = s["rv"]
+        pls = []
+        if rv["k"] in ("use", "cast"):
+            pl = mir.op_place(rv["op"])
+            if pl is not None:
+                pls.append((pl, False))
+        elif rv["k"] in ("ref", "rawptr"):
+            pls.append((rv["pl"], bool(rv.get("mut"))))
+        elif rv["k"] == "discr":
+            pls.append((rv["pl"], False))
+        elif rv["k"] == "agg":
+            for o in rv["ops"]:
+                pl = mir.op_place(o)
+                if pl is not None:
+                    pls.append((pl, False))
+        for pl, mut in pls:
+            fld = field_of(pl, adt)
+            if fld:
+                out.append((bi, s["line"], fld, "expose" if mut else "read", s))
+    for bi, t in mir.calls(f):
+        for a in t["args"]:
+            pl = mir.op_place(a)
+            if pl is not None:
+                fld = field_of(pl, adt)
+                if fld:
+                    out.append((bi, t["line"], fld, "read", None))
+    return out
+
+
 def s_stale(F, res):
+    """History independence of the compiler instance, per entry point: a field that is written (or handed out as `&mut`) after
+    construction must, in every entry point of the Compiler trait that looks at it, be definitely overwritten with a value
+    that does not come from the field itself before it is looked at - or be reset by a method the resolver calls before the
+    first round."""
     adt = F.adt(COMP)
     fields = [fd["name"] for fd in adt["variants"][0]["fields"]]
     cg = CallGraph(F, callbacks=False)
-    # writes after construction
-    writes = {}
-    resets = {}
-    for f in F.fns.values():
+    entries = [p for p, f in F.fns.items() if p.startswith("<tx3_cardano::Compiler as tx3_tir::compile::Compiler>::") and not f.get("owner")]
+    if len(entries) < 2:
+        raise BrokenCheck("Compiler trait entry points not found")
+    ev = {}
+    for p, f in F.fns.items():
         if f["crate"] != "tx3_cardano" or is_derive(f):
             continue
+        e = _field_events(f, COMP)
+        if e:
+            ev[p] = e
+    ctor = "tx3_cardano::Compiler::new"
+    written = {}
+    for p, e in ev.items():
+        if p == ctor:
+            continue
+        for bi, line, fld, kind, s in e:
+            if kind in ("overwrite", "expose"):
+                written.setdefault(fld, []).append((p, line, kind))
+    # resets reachable from the resolver
+    resets = {}
+    for p, e in ev.items():
+        f = F.fns[p]
         du = None
-        for bi, si, s in mir.stmts(f):
-            fld = field_of(s["lhs"], COMP)
-            if fld is None:
+        for bi, line, fld, kind, s in e:
+            if kind != "overwrite" or s is None:
                 continue
-            writes.setdefault(fld, []).append((f, s))
             du = du or mir.DefUse(f)
             rv = s["rv"]
             src = mir.provenance(f, du, rv["op"]) if rv["k"] == "use" else []
             is_reset = (rv["k"] == "agg" and rv.get("variant") == "None") or any(
                 o.kind == "agg" and o.rv.get("variant") == "None" for o in src) or any(
                 o.kind == "call" and o.callee.endswith("Default::default") for o in src)
-            if is_reset:
-                resets.setdefault(fld, []).append(f)
-    reads = {}
-    rroots = ["<tx3_cardano::Compiler as tx3_tir::compile::Compiler>::reduce_op"]
-    for p in cg.reachable(rroots):
-        f = F.fns[p]
-        if f["crate"] != "tx3_cardano":
-            continue
-        for bi, si, s in mir.stmts(f):
-            rv = s["rv"]
-            pls = []
-            if rv["k"] in ("use", "cast"):
-                pl = mir.op_place(rv["op"])
-                if pl is not None:
-                    pls.append(pl)
-            elif rv["k"] in ("ref", "rawptr", "discr"):
-                pls.append(rv["pl"])
-            for pl in pls:
-                fld = field_of(pl, COMP)
-                if fld:
-                    reads.setdefault(fld, set()).add(p)
-    resolve_reach = cg.reachable(["tx3_resolver::resolve_tx"]) | cg.reachable(["<tx3_cardano::Compiler as tx3_tir::compile::Compiler>::compile"]) | cg.reachable(rroots)
+            if is_reset and p != ctor:
+                resets.setdefault(fld, []).append(p)
+    resolve_reach = cg.reachable(["tx3_resolver::resolve_tx"])
     w = "%s:%s" % (adt["file"].replace("/repo/", ""), adt["line"])
     for fld in fields:
         key = "%s.%s" % (COMP, fld)
-        wr = writes.get(fld, [])
-        rd = reads.get(fld, set())
+        wr = written.get(fld, [])
         if not wr:
-            res.add([ok("S-STALE", key, w, "never written after construction")])
+            res.add([ok("S-STALE", key, w, "never written or handed out mutably after construction")])
             continue
-        if not rd:
-            res.add([ok("S-STALE", key, w, "written by %s but not read by reduce_op's closure" % ", ".join(sorted({x[0]["path"].split("::")[-1] for x in wr})))])
-            continue
-        rs = [f for f in resets.get(fld, []) if f["path"] in resolve_reach]
-        if rs:
-            res.add([ok("S-STALE", key, w, "reset to a history-independent value in %s" % ", ".join(sorted({f["path"].split("::")[-1] for f in rs})))])
+        stale = []
+        looked = False
+        for ep in sorted(entries):
+            f = F.fns[ep]
+            cfg = mir.CFG(f)
+            du = mir.DefUse(f)
+            mine = [x for x in ev.get(ep, []) if x[2] == fld]
+            over = []
+            for bi, line, _, kind, s in mine:
+                if kind == "overwrite" and s is not None:
+                    src = mir.provenance(f, du, s["rv"].get("op") or {}) if s["rv"]["k"] == "use" else []
+                    self_dep = any(o.kind == "arg" and o.local == 1 and ("." + fld) in o.proj for o in src)
+                    if not self_dep:
+                        over.append(bi)
+            for bi, line, _, kind, s in mine:
+                if kind in ("read", "expose"):
+                    looked = True
+                    if not any(ob != bi and cfg.dominates(ob, bi) for ob in over):
+                        stale.append((ep, line, kind))
+        rs = [p for p in resets.get(fld, []) if p in resolve_reach]
+        if not looked:
+            res.add([ok("S-STALE", key, w, "written by %s but never looked at by an entry point of the Compiler trait" % ", ".join(sorted({x[0].split("::")[-1] for x in wr})))])
+        elif not stale:
+            res.add([ok("S-STALE", key, w, "every look at it inside an entry point is dominated by an overwrite in the same call")])
+        elif rs:
+            res.add([ok("S-STALE", key, w, "reset to a history-independent value in %s, which the resolver reaches" % ", ".join(sorted({x.split("::")[-1] for x in rs})))])
         else:
-            res.add([finding("S-STALE", key, w, "`%s` is written by %s, read by %s and never reset: a resolution starts from whatever the instance compiled last" % (
-                fld, ", ".join(sorted({x[0]["path"].split("::")[-1] for x in wr})), ", ".join(sorted(x.split("::")[-1] for x in rd))))])
+            ep, line, kind = stale[0]
+            res.add([finding("S-STALE", key, where(F.fns[ep], line), "`%s` is %s by %s and %s by %s without being overwritten first in that call, and nothing the resolver calls resets it: the outcome depends on what this compiler instance compiled before" % (
+                fld, "/".join(sorted({x[2] + "n" if x[2] == "overwrite" else "handed out as &mut" for x in wr})).replace("overwriten", "overwritten"), ", ".join(sorted({x[0].split("::")[-1] for x in wr})),
+                "handed out as &mut (read and conditionally written)" if kind == "expose" else "read", ep.split("::")[-1]))])
     res.count("Compiler fields", len(fields))
     res.floor("Compiler fields", len(fields), 4)
+    res.count("Compiler trait entry points", len(entries))
 
 
 INTERIOR = re.compile(r"std::cell::(Cell|RefCell|OnceCell|UnsafeCell)<|std::sync::(Mutex|RwLock|OnceLock)<|std::sync::atomic::")
